@@ -1,7 +1,7 @@
 (* C11 — every render call returns.  Theorems only. *)
 From Coq Require Import List Bool Arith.
 Import ListNotations.
-From V Require Import Base.Bytes Model.Depth Proofs.DepthP Gen.Sites_C11.
+From V Require Import Base.Bytes Model.Depth Proofs.DepthP Gen.Sites_C11 Model.LayoutSlots Proofs.LayoutSlotsP.
 
 (* 1. the model's include evaluation is a structurally recursive (total) function of the depth budget for
       EVERY file table; a chain of limit+1 nested includes is an error ... *)
@@ -46,6 +46,27 @@ Print Assumptions C11_field_reads_guarded.
 Theorem C11_callfunc_recovers : existsb (fun r => bytes_eqb (snd r) (bs "callFunc")) recover_sites = true.
 Proof. vm_compute. reflexivity. Qed.
 Print Assumptions C11_callfunc_recovers.
+
+(* 6. the other recursion of the evaluator that follows a table the template author controls: slots a page hands
+      to its layout, whose contents may use one another in any ring.  For EVERY table of supplied contents and
+      every layout, expansion ends - (number of supplied slots) nested expansions always suffice, so the depth of
+      the recursion is bounded by the page's own size - and more budget changes nothing *)
+Theorem C11_layout_slots_end : forall t layout, layout_slots t layout <> None.
+Proof. exact layout_slots_total. Qed.
+Print Assumptions C11_layout_slots_end.
+Theorem C11_slot_expansion_bounded : forall t fuel chain, chain_ok t chain -> length t <= fuel + length chain ->
+  forall it, expand fuel t chain it <> None.
+Proof. exact expand_total. Qed.
+Print Assumptions C11_slot_expansion_bounded.
+Theorem C11_slot_budget_irrelevant : forall t layout fuel, length t <= fuel ->
+  expand_all fuel t [] layout = layout_slots t layout.
+Proof. exact layout_slots_fuel_irrelevant. Qed.
+Print Assumptions C11_slot_budget_irrelevant.
+(* the twin that remembers only the innermost slot being expanded does not end on two contents that use each
+   other, whatever the budget (a one-name memory, or none as before repair a290021, is not enough) *)
+Theorem C11_one_name_memory_diverges : exists t layout, forall fuel, seq_opt (expand_inner fuel t None) layout = None.
+Proof. exact innermost_only_diverges. Qed.
+Print Assumptions C11_one_name_memory_diverges.
 
 (* non-vacuity: a three-file cycle entered from outside it, and a diamond that is fine *)
 Example C11_cycle_example :
